@@ -297,7 +297,10 @@ pub fn honest_sig_entry<E: Extensions>(h: &Header<E>) -> Option<(Vec<u8>, Vec<u8
     let mut u = h.clone();
     u.signature = None;
     let unsigned = u.to_bytes();
-    if !h.verifying_key.verify(&unsigned, &sig) {
+    // judged with the primitive itself (ed25519-dalek `verify_strict`), not through p2panda's wrapper
+    let vk = ed25519_dalek::VerifyingKey::from_bytes(h.verifying_key.as_bytes()).ok()?;
+    let s = ed25519_dalek::Signature::from_bytes(&sig.to_bytes());
+    if vk.verify_strict(&unsigned, &s).is_err() {
         return None;
     }
     Some((h.verifying_key.as_bytes().to_vec(), sig.to_bytes().to_vec(), unsigned))
